@@ -292,9 +292,11 @@ func parseTxtList(txt []string) map[string]string {
 // ---------------------------------------------------------------- application stub
 
 type recApp struct {
-	x    *Ctx
-	node string
-	rig  *hubRig
+	// inPairingCB, if set, runs inside every delayed ServicePairingDetailUpdate
+	inPairingCB func(ski string, state int)
+	x           *Ctx
+	node        string
+	rig         *hubRig
 
 	mu           sync.Mutex
 	writers      map[string]api.ShipConnectionDataWriterInterface
@@ -347,6 +349,10 @@ func (a *recApp) ServicePairingDetailUpdate(ski string, d *api.ConnectionStateDe
 		a.rig.pmu.Unlock()
 	}
 	a.x.Ev("app-pairing", a.node, ski+"|"+kind, int(d.State())*1000000+seq)
+	if f := a.inPairingCB; f != nil && kind == "delayed" {
+		// what a real application does here: persist, ask the user, approve
+		f(ski, int(d.State()))
+	}
 }
 func (a *recApp) AllowWaitingForTrust(ski string) bool {
 	a.mu.Lock()
